@@ -326,6 +326,9 @@ pub fn run(ctx: &mut Ctx) {
                     let mut inf = bytes[*o..*o + 48].to_vec(); inf[0] |= 0x40;
                     alts.push(("g1-infinity-flag-with-x", inf, Some(true)));
                     alts.push(("g1-other-valid", wire::enc_g1(&ctx.book, &rand_scalar(&mut ctx.prng)), None));
+                    // the inverse of the element just decoded (same x-coordinate, other sort flag): a valid, different
+                    // element — must decode, and to itself (anything remembered about P must not answer for -P)
+                    if bytes[*o] & 0x40 == 0 { let mut ng = bytes[*o..*o + 48].to_vec(); ng[0] ^= 0x20; alts.push(("g1-negated", ng, None)); }
                 }
                 'B' => {
                     let mut id = vec![0u8; 96]; id[0] = 0xc0;
@@ -334,6 +337,7 @@ pub fn run(ctx: &mut Ctx) {
                     alts.push(("g2-outside-subgroup", bad.g2_nosubgroup.clone(), Some(true)));
                     let mut nf = bytes[*o..*o + 96].to_vec(); nf[0] &= 0x7f;
                     alts.push(("g2-no-compression-flag", nf, Some(true)));
+                    if bytes[*o] & 0x40 == 0 { let mut ng = bytes[*o..*o + 96].to_vec(); ng[0] ^= 0x20; alts.push(("g2-negated", ng, None)); }
                 }
                 'S' => {
                     alts.push(("scalar-q", q_bytes().to_vec(), Some(true)));
